@@ -57,7 +57,8 @@ pub(crate) fn read<V: MultiClassVisitor>(reader: &mut impl ClassRead, visitor: V
 	let major = reader.read_u16()?;
 	let version = Version::new(major, minor);
 
-	if version > Version::V23 {
+	// A class file that depends on preview features has minor version 65535 (JVMS 4.1): compare the major version only.
+	if version.major > Version::V23.major {
 		bail!("unsupported class file version: {version:?}");
 	}
 
